@@ -25,6 +25,8 @@ func runC16(c *an.Ctx) {
 	r16b(c)
 	r16cd(c)
 	r16e(c)
+	// round 7
+	r16g(c)
 }
 
 const trPkg = "executor/executorcmd/transitioner"
